@@ -146,6 +146,7 @@ public:
     std::unordered_map<void*, long>  live;    // pointer -> id
     std::unordered_map<void*, long>  freed;   // quarantined (never reused): pointer -> id
     std::string failSite;
+    bool        reallyFree = std::getenv("C19_REALLY_FREE") != 0;
 
     FaultManager() : phase(P_NONE), failPhase(P_NONE), failAt(0), fired(false), excKind(EXC_OOM),
                      foreign(0), dbl(0), nullFrees(0), nextId(0), tracing(false)
@@ -171,6 +172,7 @@ public:
         if (p == 0) { emit("fatal=real-oom\n"); _exit(3); }
         std::memset(p, 0xA5, size);
         long id = ++nextId;
+        freed.erase(p);             // only possible in really-free mode (address reuse)
         live[p] = id;
         if (tracing) trace.push_back(id);
         return p;
@@ -189,6 +191,7 @@ public:
         if (tracing) trace.push_back(-it->second);
         freed[p] = it->second;      // quarantine: the address is never handed out again in this process
         live.erase(it);
+        if (reallyFree) std::free(p);   // sanitizer runs (C19_REALLY_FREE=1): let ASan see use-after-free
     }
 
     virtual MemoryManager* getExceptionMemoryManager() { return this; }
@@ -487,7 +490,7 @@ int main(int argc, char** argv)
                     for (size_t i = 0; i < running.size(); ++i) ::close(running[i].fd);
                     g_out = fds[1];
                     int devnull = ::open("/dev/null", 1);
-                    if (devnull >= 0) { dup2(devnull, 2); dup2(devnull, 1); }
+                    if (devnull >= 0) { dup2(devnull, 1); if (std::getenv("C19_STDERR_TO_PIPE")) dup2(fds[1], 2); else dup2(devnull, 2); }
                     int c = childBody(sc, ph, next, exc, expect, traceFile);
                     _exit(c);
                 }
